@@ -332,6 +332,48 @@ fn gen_spec(r: &mut Rng, sc: &Scenario, force_exclude: Option<bool>) -> Spec {
     Spec { text }
 }
 
+/// directed list: the current directory has a sibling that differs only by case; a positive spec selects the
+/// sibling (leaving the cwd via `..` or `top`), and an `icase` spec relative to the cwd names a file of the sibling.
+/// Only the path part after the cwd is case-insensitive, so that spec must not touch the sibling's files.
+fn case_twin_list(r: &mut Rng, sc: &Scenario) -> Option<Vec<Spec>> {
+    if sc.prefix.is_empty() {
+        return None;
+    }
+    let twins: Vec<&Vec<u8>> = sc.dirs.iter().filter(|d| **d != sc.prefix && d.eq_ignore_ascii_case(&sc.prefix)).collect();
+    if twins.is_empty() {
+        return None;
+    }
+    let twin = (*r.pick(&twins)).clone();
+    let mut below = twin.clone();
+    below.push(b'/');
+    let inside: Vec<&Vec<u8>> = sc.paths.iter().filter(|p| p.starts_with(&below)).collect();
+    if inside.is_empty() {
+        return None;
+    }
+    let mut name = (*r.pick(&inside))[below.len()..].to_vec();
+    if r.bool() {
+        for b in name.iter_mut() {
+            if r.chance(1, 3) {
+                *b = if b.is_ascii_lowercase() { b.to_ascii_uppercase() } else { b.to_ascii_lowercase() };
+            }
+        }
+    }
+    let positive = if r.bool() {
+        let mut t = b":(top)".to_vec();
+        t.extend_from_slice(&twin);
+        t
+    } else {
+        rel_to_prefix(&twin, &sc.prefix)
+    };
+    let mut second = if r.chance(3, 4) { b":(exclude,icase)".to_vec() } else { b":(icase)".to_vec() };
+    second.extend_from_slice(&name);
+    let mut specs = vec![Spec { text: positive }, Spec { text: second }];
+    if r.chance(1, 4) {
+        specs.push(gen_spec(r, sc, None));
+    }
+    Some(specs)
+}
+
 // ---------------------------------------------------------------- description of a spec for shapes/signatures
 
 #[derive(Clone, Debug, PartialEq, Eq, Hash, PartialOrd, Ord)]
@@ -737,7 +779,16 @@ pub fn run(ctx: &mut Ctx) {
             }
         }
         ctx.count_n("git_spawns", 3);
-        let prefix: Vec<u8> = if r.bool() || dirs.is_empty() {
+        // directories that have a sibling differing only by case (`dir`/`Dir`): the only place where the
+        // case-sensitive comparison of an icase spec's cwd part is observable
+        let twins: Vec<Vec<u8>> = dirs
+            .iter()
+            .filter(|d| dirs.iter().any(|o| o != *d && o.eq_ignore_ascii_case(d)))
+            .cloned()
+            .collect();
+        let prefix: Vec<u8> = if !twins.is_empty() && r.chance(1, 3) {
+            r.pick(&twins).clone()
+        } else if r.bool() || dirs.is_empty() {
             Vec::new()
         } else {
             let d: Vec<&Vec<u8>> = dirs.iter().collect();
@@ -806,6 +857,12 @@ pub fn run(ctx: &mut Ctx) {
             }
             if r.chance(1, 40) {
                 specs.clear(); // no pathspec at all
+            }
+            if r.chance(1, 8) {
+                if let Some(directed) = case_twin_list(r, &sc) {
+                    specs = directed;
+                    ctx.count("directed_case_twin_lists");
+                }
             }
             ctx.count("git_spawns");
             let ev = match guard(|| evaluate(&sc, &repo, &index, &specs)) {
